@@ -391,3 +391,53 @@ Proof.
   intros W K. pose proof (gamma_theory_wf t W) as W'. pose proof (gamma_theory_known_class t W K) as K'.
   split; [exact W'|]. split; [exact K'|]. apply text_theory; assumption.
 Qed.
+
+(* ------------------------------------------------------------------ CLI corollaries *)
+From Anthem Require Import Model.Cli Proofs.CliOk Proofs.FolImage.
+
+Theorem cli_translate_gamma_feeds_back s out :
+  run_cli (Translate Gamma) s = Stdout out ->
+  exists t,
+    parse_theory_str s = PR_ok t /\ out = show_theory (gamma_theory t) /\
+    (known_class_theory t = None ->
+     known_class_theory (gamma_theory t) = None /\
+     parse_theory_str out = PR_ok (gamma_theory t) /\ run_cli (Parse Theory) out = Stdout out).
+Proof.
+  cbn [run_cli run_translate]. intros E.
+  apply theory_bind_stdout in E. destruct E as (t & Et & E).
+  apply print_theory_inj_stdout in E. subst out.
+  exists t. split; [exact Et|]. split; [reflexivity|]. intros K.
+  destruct (gamma_output_reparses t (image_theory_str s t Et) K) as (_ & K' & R).
+  split; [exact K'|]. split; [exact R|].
+  cbn [run_cli run_parse]. unfold theory_from_file. rewrite R. reflexivity.
+Qed.
+
+(* whatever `simplify` prints: IF the simplified theory is well-formed and outside the classes, it is
+   fed back unchanged.  The two premises are what is not proved for the portfolios (see
+   Properties/C15out.v: class-freedom is not preserved by the classic portfolio). *)
+Theorem cli_simplify_feeds_back_partial pf st s out :
+  run_cli (Simplify pf st) s = Stdout out ->
+  exists t g,
+    parse_theory_str s = PR_ok t /\ simplify_theory pf st t = Got g /\ out = show_theory g /\
+    (wf_theory g = true -> known_class_theory g = None ->
+     parse_theory_str out = PR_ok g /\ run_cli (Parse Theory) out = Stdout out).
+Proof.
+  cbn [run_cli run_simplify]. intros E.
+  apply theory_bind_stdout in E. destruct E as (t & Et & E).
+  destruct (simplify_theory pf st t) as [g|r] eqn:Es; cbn [bind] in E.
+  - apply print_theory_inj_stdout in E. subst out.
+    exists t, g. split; [exact Et|]. split; [exact Es|]. split; [reflexivity|]. intros W K.
+    pose proof (text_theory g W K) as R. split; [exact R|].
+    cbn [run_cli run_parse]. unfold theory_from_file. rewrite R. reflexivity.
+  - exfalso.
+    assert (Hn : forall t r, simplify_theory pf st t = Stop r -> r = Panic \/ r = OutOfFuel).
+    { clear. induction t as [|F t IH]; cbn [simplify_theory]; intros r; [discriminate|].
+      destruct (simplify_formula pf st F) as [G|r0] eqn:EF.
+      - destruct (simplify_theory pf st t) as [Gs|r1]; [discriminate|].
+        intros [= <-]. apply IH; reflexivity.
+      - intros [= <-]. unfold simplify_formula in EF. destruct pf.
+        + destruct (StrategyCls.run_strategy_opt _ _ _ F); inversion EF; auto.
+        + destruct (Strategy.run_strategy _ _ _ F); inversion EF; auto.
+        + destruct (Strategy.run_strategy _ _ _ F); inversion EF; auto. }
+    destruct (Hn t r Es) as [-> | ->]; discriminate E.
+Qed.
